@@ -115,10 +115,14 @@ EnvTable(plans, maxLen) ==
     SX!SetToSeq({ [plan |-> plans[j], steps |-> Filled(b, plans[j])] :
                   j \in 1..Len(plans), b \in UNION {Behaviours(l) : l \in 2..maxLen} })
 
-ObjTable(maxLen) == SX!SetToSeq({ [c |-> c, calls |-> q] : c \in Constructions, q \in ObjSeqs(maxLen) })
+\* parts: sequence of [routes ("all" | "object" | "method"), maxlen, cons (sequence of constructions)]
+RoutesOf(name) == IF name = "all" THEN Routes ELSE IF name = "object" THEN ObjectRoutes ELSE {"method"}
+ObjTable(parts) == SX!SetToSeq(UNION { { [c |-> parts[j].cons[i], calls |-> q] :
+                                          i \in 1..Len(parts[j].cons), q \in ObjSeqs(parts[j].maxlen, RoutesOf(parts[j].routes)) } :
+                                       j \in 1..Len(parts) })
 
 Judge(rec) ==
-  CASE rec.k = "objgen" -> [v |-> "ok", dev |-> "", exp |-> <<>>, seqs |-> ObjTable(rec.maxlen)]
+  CASE rec.k = "objgen" -> [v |-> "ok", dev |-> "", exp |-> <<>>, seqs |-> ObjTable(rec.parts)]
     [] rec.k = "objtrace" ->
          LET fs == ObjJudge(rec.c, rec.events, rec.fact) IN
          [v |-> IF ObjBlamed(fs) THEN "events" ELSE "ok", dev |-> "", exp |-> <<>>, evs |-> fs]
